@@ -17,7 +17,7 @@ META = dict(
     functions=["Bf3File.write_file", "Bf3File.to_binary", "Bf3File.dir_to_binary", "Bf3Component.get_raw_data", "Bf3Component.from_encrypted_raw_data", "Bf3File.read_file", "Bf3File.from_binary", "Bf3File.set_config", "conf_dict_to_tlv", "Bec2File.write_file/to_binary/pack_auth_blocks/read_file/unpack_auth_blocks", "AesEncryptorMixin.encrypt/decrypt", "AES128Proxy.encrypt/decrypt/mac", "crypto.pad", "crypto.create_AES128"],
     stubs=["S-io", "S-cbc", "S-crc", "S-sha", "text-layer bypass (C01 lemmas)", "fresh-output cipher (secrecy query)", "raising cipher (fail-closed query)"],
     assumptions=["AES-CBC modelled as uninterpreted per-(key, previous block) bijection"],
-    bounds=dict(quick="content lengths {1,15,16,17,31,32,33,47,48}; BF3 framing direct + via set_config (1-2 entries); BEC2 framing with customer-key block; secrecy for lengths {1,16,17,33} BF3 and BEC2 (cust, update blocks); fail-closed: every cipher call index of a 2-component file", thorough="content lengths 1..64 direct; set_config with 1..3 entries; secrecy lengths 1..48 step 5"),
+    bounds=dict(quick="content lengths {1,15,16,17,31,32,33,47,48}; BF3 framing direct + via set_config (1-2 entries); BEC2 framing with customer-key block; secrecy for lengths {1,16,17,33} BF3 and BEC2 (cust, update blocks); fail-closed: every cipher call index of a 2-component file", thorough="content lengths 1..64 direct; 1041-byte content (symbolic around the 1 KiB boundaries) through get_raw_data/from_encrypted_raw_data; set_config with 1..3 entries; secrecy lengths 1..48 step 5"),
     outside=["contents > 64 bytes", "side channels", "ECC block secrecy wiring (C09)"],
 )
 
@@ -34,7 +34,9 @@ def jobs(tier, seed):
     for n in ([1, 16, 33] if tier == "quick" else [1, 15, 16, 17, 32, 33, 48]):
         J.append(dict(name="rec:bec2:direct:n%d" % n, kind="rec", framing="bec2", how="direct", n=n, timeout=900, cost=100 + n))
     # long content (chaining across 1 KiB boundaries): 1041 bytes, symbolic at the block boundaries only
-    J.append(dict(name="rec:bf3:direct:n1041-sparse", kind="rec", framing="bf3", how="direct", n=1041, sparse=True, timeout=3000, cost=900))
+    if tier == "thorough":
+        J.append(dict(name="stored:get_raw_data:n1041-sparse", kind="rawdata", n=1041, timeout=3000, cost=900))
+    J.append(dict(name="stored:get_raw_data:n257-sparse", kind="rawdata", n=257, timeout=1500, cost=200))
     J.append(dict(name="rec:twin", kind="rec", framing="bf3", how="direct", n=17, twin=True, expect="violated", timeout=300))
     for n in ([1, 16, 17, 33] if tier == "quick" else list(range(1, 49, 5)) + [16, 17, 32, 33]):
         for framing in ("bf3", "bec2"):
@@ -123,6 +125,32 @@ def run_job(job):
 
         res = runner.run(h, job["timeout"] - 60, job["timeout"] - 60)
         res["symbolic_dims"] = 16 + job.get("n", 0) + sum(job.get("cfg", []))
+        if res["verdict"] == "violated":
+            res["signature"] = "C06:recovery"
+        return res
+
+    if kind == "rawdata":
+        n = job["n"]
+
+        def h():
+            # the stored form of a long component is ONE CBC chain over the zero-padded content
+            key = sym.sym_bytes("key", 16)
+            symat = set([0, 1, 15, 16, 255, 256, 1007, 1008, 1023, 1024, 1025, 1039, 1040])
+            content = bytes((sym.sym_int("c%d_" % i, 0, 256) if i in symat else (i * 7 + 3) % 256) for i in range(n))
+            comp = _mk_comp(bf, content, n)
+            runner.track(dict(key=key, content=content))
+            stored = comp.get_raw_data(key)
+            zp = content + bytes(-n % 16)
+            ok = len(stored) == len(zp) and stored == stubs.model_cbc_encrypt(key, None, zp)
+            if ok:
+                back = bf.Bf3Component.from_encrypted_raw_data(dict(CONFIG_DESC), stored, n, key)
+                ok = back.blob[:n] == content and back.encrypt_by_session_key is True
+            if not ok:
+                runner.record_witness(key=key, content=content)
+            return ok
+
+        res = runner.run(h, job["timeout"] - 60, job["timeout"] - 60)
+        res["symbolic_dims"] = 27
         if res["verdict"] == "violated":
             res["signature"] = "C06:recovery"
         return res
@@ -303,6 +331,22 @@ def replay(job):
         return dict(reproduced=True, signature="twin")
     w = _unhex(job.get("witness") or {})
     kind = job["kind"]
+    if kind == "rawdata":
+        from register_crypto_plugin.pyaes import AESModeOfOperationCBC
+
+        key = w.get("key", bytes(range(16)))
+        content = w.get("content", bytes((i * 7 + 3) % 256 for i in range(job["n"])))
+        f = bf.Bf3File({}, [_mk_comp(bf, content, len(content))])
+        s = io.StringIO()
+        f.write_file(s, key)
+        rawb = bytes.fromhex("".join(s.getvalue().split("\n")[1:]))
+        zp = content + bytes(-len(content) % 16)
+        m_ = AESModeOfOperationCBC(key, bytes(16))
+        want_ct = b"".join(m_.encrypt(zp[i : i + 16]) for i in range(0, len(zp), 16))
+        s.seek(0)
+        g = bf.Bf3File.read_file(s, True, key)
+        bad = not rawb.endswith(want_ct) or g.components[0].blob[: len(content)] != content
+        return dict(reproduced=bad, signature="C06:recovery", detail="%d-byte encrypted component: stored bytes %s CBC(key, 0, content||0*), read back %s" % (len(content), "==" if rawb.endswith(want_ct) else "!=", "equal" if g.components[0].blob[: len(content)] == content else "different"))
     if kind == "rec":
         import random
 
